@@ -36,6 +36,40 @@ type runCfg struct {
 	Flags string `json:"flags"` // "none" | "keep" | "lazy" | "nover" | "keep+lazy+nover"
 	Procs int    `json:"procs"` // GOMAXPROCS of the templ process
 	Debug bool   `json:"debug"` // -log-level debug (completion order becomes observable)
+	// PathForm: how -path is spelled. "" absolute | rel (cwd elsewhere, ../x/root) | dotslash (./root) |
+	// slash (trailing /) | dotdot (root/../root) | symroot (the root is a symlink) | symparent (a parent is a symlink)
+	PathForm string `json:"path_form,omitempty"`
+}
+
+var pathForms = []string{"", "rel", "dotslash", "slash", "symroot", "symparent", "dotdot", ""}
+
+// spell prepares the path form below scratch dir `dir` (the real tree is at
+// dir/real/<root>) and returns the -path argument and the working directory.
+func (r runCfg) spell(dir, root string) (arg, cwd string, err error) {
+	base := filepath.Base(root)
+	cwd = filepath.Dir(root)
+	switch r.PathForm {
+	case "rel":
+		cwd = filepath.Join(dir, "elsewhere", "deeper")
+		err = os.MkdirAll(cwd, 0o755)
+		arg = filepath.Join("..", "..", "real", base)
+	case "dotslash":
+		arg = "./" + base
+	case "slash":
+		arg = root + "/"
+	case "dotdot":
+		arg = root + "/../" + base
+	case "symroot":
+		arg = filepath.Join(dir, "lnk-"+strings.TrimLeft(base, "._"))
+		err = os.Symlink(root, arg)
+	case "symparent":
+		lp := filepath.Join(dir, "lp")
+		err = os.Symlink(filepath.Dir(root), lp)
+		arg = filepath.Join(lp, base)
+	default:
+		arg = root
+	}
+	return arg, cwd, err
 }
 
 func (r runCfg) has(f string) bool {
@@ -47,6 +81,7 @@ func (r runCfg) has(f string) bool {
 	return false
 }
 
+// args: root is the -path argument exactly as spelled.
 func (r runCfg) args(root string) []string {
 	a := []string{"generate", "-path", root, "-w", fmt.Sprint(r.W)}
 	if r.has("keep") {
@@ -127,6 +162,9 @@ type expectation struct {
 // with cfg on tree t. Rules (trusted base):
 //   - X.templ outside skipped dirs, reference succeeds -> X_templ.go == reference bytes
 //   - reference fails -> command fails; X_templ.go is whatever it was (absent stays absent)
+//   - X_templ.go is a directory -> cannot be written: command fails, directory untouched
+//   - the FileName baked into the generated code is the path relative to the root AS THE USER
+//     SPELLED -path (what single-file generation from that root gives), for every spelling
 //   - *_templ.go outside skipped dirs without X.templ -> removed unless -keep-orphaned-files
 //   - every other path: same bytes, same mtime (not rewritten)
 //   - -lazy: a template whose sibling exists and is strictly newer is not processed at all
@@ -141,6 +179,10 @@ func expected(t treeSpec, cfg runCfg) expectation {
 		paths = append(paths, p)
 	}
 	sort.Strings(paths)
+	isDir := map[string]bool{}
+	for _, d := range t.Dirs {
+		isDir[d] = true
+	}
 	for _, p := range paths {
 		e := t.Files[p]
 		if inSkipped(p, false) {
@@ -156,6 +198,15 @@ func expected(t treeSpec, cfg runCfg) expectation {
 				x := ex.Files[sib]
 				x.Why = "lazy-up-to-date-sibling"
 				ex.Files[sib] = x
+				continue
+			}
+			if isDir[sib] {
+				// a directory sits where the sibling would go: the file cannot be generated, the
+				// command fails, the directory stays (-lazy compares its mtime like a file's)
+				if dm, ok := t.DirMtimes[sib]; ok && cfg.has("lazy") && dm*1e9 > e.ns() {
+					continue
+				}
+				ex.Bad = append(ex.Bad, p)
 				continue
 			}
 			r := refGen(string(e.Data), p, !cfg.has("nover"))
@@ -303,16 +354,16 @@ var hangs atomic.Int64
 // runTempl executes the CLI once. A run of these small trees takes well under a
 // second; one that exceeds 30 s is repeated alone with a 60 s budget, and only
 // if that also expires is it reported as timed out (the command hangs).
-func runTempl(bin, root, logDir string, cfg runCfg) runOut {
+func runTempl(bin, root, cwd, logDir string, cfg runCfg) runOut {
 	if hangs.Load() >= 1 {
 		// the command has already been shown to hang (confirmed by a
 		// solo re-run): do not spend minutes on every further scenario
 		soloMu.RLock()
 		defer soloMu.RUnlock()
-		return runTemplOnce(bin, root, logDir, cfg, 10*time.Second)
+		return runTemplOnce(bin, root, cwd, logDir, cfg, 10*time.Second)
 	}
 	soloMu.RLock()
-	ro := runTemplOnce(bin, root, logDir, cfg, 30*time.Second)
+	ro := runTemplOnce(bin, root, cwd, logDir, cfg, 30*time.Second)
 	soloMu.RUnlock()
 	if ro.timedOut {
 		defer func() {
@@ -321,21 +372,21 @@ func runTempl(bin, root, logDir string, cfg runCfg) runOut {
 			}
 		}()
 		soloMu.Lock()
-		ro = runTemplOnce(bin, root, logDir+"-solo", cfg, 60*time.Second)
+		ro = runTemplOnce(bin, root, cwd, logDir+"-solo", cfg, 60*time.Second)
 		soloMu.Unlock()
 	}
 	return ro
 }
 
-func runTemplOnce(bin, root, logDir string, cfg runCfg, budget time.Duration) runOut {
+func runTemplOnce(bin, root, cwd, logDir string, cfg runCfg, budget time.Duration) runOut {
 	_ = os.MkdirAll(logDir, 0o755)
 	errFile := filepath.Join(logDir, "stderr.txt")
 	ef, _ := os.Create(errFile)
 	ctx, cancel := context.WithTimeout(context.Background(), budget)
 	defer cancel()
 	cmd := exec.CommandContext(ctx, bin, cfg.args(root)...)
-	cmd.Dir = filepath.Dir(root)
-	cmd.Env = append(os.Environ(), "GORACE=halt_on_error=0 exitcode=0 atexit_sleep_ms=0 log_path="+filepath.Join(logDir, "race"),
+	cmd.Dir = cwd
+	cmd.Env = append(os.Environ(), "PWD="+cwd, "GORACE=halt_on_error=0 exitcode=0 atexit_sleep_ms=0 log_path="+filepath.Join(logDir, "race"),
 		fmt.Sprintf("GOMAXPROCS=%d", cfg.Procs), "NO_COLOR=1", "TEMPL_DEV_MODE=", "TEMPL_DEV_MODE_ROOT=")
 	cmd.Stdout = ef
 	cmd.Stderr = ef
@@ -414,12 +465,16 @@ func (k *checker) scenario(id string, t treeSpec, cfg runCfg, report bool) (sig 
 	dir := filepath.Join(k.scratch, fmt.Sprintf("s%06d", k.seq))
 	k.mu.Unlock()
 	defer os.RemoveAll(dir)
-	root, err := materialise(dir, t)
+	root, err := materialise(filepath.Join(dir, "real"), t)
 	if err != nil {
 		core.Infra("materialise: %v", err)
 	}
+	arg, cwd, err := cfg.spell(dir, root)
+	if err != nil {
+		core.Infra("path form %q: %v", cfg.PathForm, err)
+	}
 	ex := expected(t, cfg)
-	ro := runTempl(k.bin, root, filepath.Join(dir, "log1"), cfg)
+	ro := runTempl(k.bin, arg, cwd, filepath.Join(dir, "log1"), cfg)
 	if ro.timedOut {
 		// the blocked state is not created by load: the run was repeated alone
 		fs = append(fs, finding{"hang", fmt.Sprintf("templ generate did not terminate (30 s, then 60 s running alone) on a tree of %d files (%v); stderr tail: %s", len(t.Files), cfg, corpus.Tail(ro.stderr, 600))})
@@ -442,7 +497,11 @@ func (k *checker) scenario(id string, t treeSpec, cfg runCfg, report bool) (sig 
 	fs = append(fs, verify(t, cfg, ex, snap, ro.exit)...)
 	k.c.Eval(1)
 	if cfg.Debug {
-		o := completionOrder(ro.stderr, root)
+		logged := arg // names in the log are below the absolute, lexically cleaned spelling
+		if !filepath.IsAbs(logged) {
+			logged = filepath.Join(cwd, logged)
+		}
+		o := completionOrder(ro.stderr, filepath.Clean(logged))
 		k.mu.Lock()
 		if k.orders[id] == nil {
 			k.orders[id] = map[string]bool{}
@@ -458,7 +517,7 @@ func (k *checker) scenario(id string, t treeSpec, cfg runCfg, report bool) (sig 
 	sig = sum([]byte(strings.Join(parts, "\n")))
 
 	// second run: contents of every file unchanged, same verdict
-	ro2 := runTempl(k.bin, root, filepath.Join(dir, "log2"), cfg)
+	ro2 := runTempl(k.bin, arg, cwd, filepath.Join(dir, "log2"), cfg)
 	if ro2.timedOut {
 		fs = append(fs, finding{"hang", "second templ generate run did not terminate (30 s, then 60 s running alone)"})
 		if report {
@@ -509,7 +568,7 @@ func (k *checker) scenario(id string, t treeSpec, cfg runCfg, report bool) (sig 
 // or deleted (its sibling becomes an orphan).
 func lazyTree(t treeSpec, r *rand.Rand) (treeSpec, map[string]int) {
 	ex := expected(t, runCfg{Flags: "none"})
-	n := treeSpec{Root: t.Root, Dirs: t.Dirs, Files: map[string]ent{}}
+	n := treeSpec{Root: t.Root, Dirs: t.Dirs, Files: map[string]ent{}, DirMtimes: t.DirMtimes}
 	const t0 = 1700000000
 	for p, e := range ex.Files {
 		m := int64(t0)
@@ -573,7 +632,7 @@ func lazyTree(t treeSpec, r *rand.Rand) (treeSpec, map[string]int) {
 
 // Run is the C15 check.
 func Run(c *core.Ctx) {
-	c.Rule = "case = (seeded directory tree, worker count, flag set, GOMAXPROCS) executed with the race-built templ CLI on a fresh copy, verified path-by-path against the in-process single-file reference generation, then run a second time; non-trivial = tree containing >=1 skipped directory with templates in it, >=1 orphan inside and outside skipped dirs and (for the failing class) >=1 unparseable and >=1 invalid-Go template outside skipped dirs; distinct by (tree hash, cfg)"
+	c.Rule = "case = (seeded directory tree, worker count, flag set, GOMAXPROCS, spelling of -path: absolute / relative with cwd elsewhere / ./ / trailing slash / x/../x / symlinked root / symlinked parent) executed with the race-built templ CLI on a fresh copy, verified path-by-path against the in-process single-file reference generation, then run a second time; non-trivial = tree containing >=1 skipped directory with templates in it, >=1 orphan inside and outside skipped dirs and (for the failing class) >=1 unparseable, >=1 invalid-Go template, >=1 template with a parser diagnostic (legacy call) that also fails (invalid Go; target path is a directory) outside skipped dirs; every tree has a diagnostic-only template that must generate; distinct by (tree hash, cfg)"
 	c.Assume("-lazy means what its usage text says: a template whose _templ.go sibling is strictly newer is not processed (so it can neither be regenerated nor fail the command); equal mtimes are not generated by the workload")
 	c.Assume("the in-process reference uses the same parser/generator/gofmt library code as the CLI, one file at a time on one goroutine: the check is about independence from the tree, the flags, the workers and the schedule, not about the generator's output being right (C02)")
 	c.Assume("roots have plain names; a root directory called .x or _x is skipped entirely by the walker (outside the statement)")
@@ -606,7 +665,13 @@ func Run(c *core.Ctx) {
 	var jobs []job
 	for i := 0; i < nTrees; i++ {
 		r := c.Rand(fmt.Sprintf("tree%d", i))
-		t := genTree(r, i%2 == 0, maxTempl)
+		// tree classes: 0 mixed bad files, 1/3 all good, 2 exactly one failing file, which also has a diagnostic
+		only := ""
+		if i%4 == 2 {
+			only = []string{"diag-badgo", "diag-unwritable"}[(i/4)%2]
+			c.Add("trees_whose_only_failing_file_has_a_diagnostic", 1)
+		}
+		t := genTree(r, i%4 == 0, only, maxTempl)
 		id := fmt.Sprintf("t%d", i)
 		nb := 0
 		for p := range t.Files {
@@ -615,6 +680,18 @@ func Run(c *core.Ctx) {
 			}
 		}
 		c.Add("templ_files", nb)
+		for p := range t.Files {
+			switch b := filepath.Base(p); {
+			case b == "legacy_only.templ":
+				c.Add("files_diagnostic_only", 1)
+			case b == "yy_legacy_badgo.templ":
+				c.Add("files_diagnostic_and_invalid_go", 1)
+			case b == "unwritable0.templ":
+				c.Add("files_target_is_a_directory", 1)
+			case b == "unwritable1.templ":
+				c.Add("files_diagnostic_and_target_is_a_directory", 1)
+			}
+		}
 		c.Add("tree_paths", len(t.Files)+len(t.Dirs))
 		if i < 2 {
 			var names []string
@@ -625,13 +702,18 @@ func Run(c *core.Ctx) {
 			if len(names) > 25 {
 				names = append(names[:25], "…")
 			}
-			c.Sample(map[string]any{"tree": id, "root": t.Root, "with_bad_files": i%2 == 0, "paths": names})
+			c.Sample(map[string]any{"tree": id, "root": t.Root, "with_bad_files": i%4 == 0, "only_failing_file": only, "paths": names})
 		}
 		th := treeHash(t)
 		n := 0
 		add := func(tt treeSpec, w int, flags, grp string) {
-			cfg := runCfg{W: w, Flags: flags, Procs: procs[(i+n)%3], Debug: n%3 != 2}
+			cfg := runCfg{W: w, Flags: flags, Procs: procs[(i+n)%3], Debug: n%3 != 2, PathForm: pathForms[(3*i+n)%len(pathForms)]}
 			n++
+			pf := cfg.PathForm
+			if pf == "" {
+				pf = "abs"
+			}
+			c.Add("path_form_"+pf, 1)
 			jobs = append(jobs, job{id: id + grp, t: tt, cfg: cfg, grp: id + "/" + grp})
 			c.NontrivialStr(th, grp, fmt.Sprint(cfg))
 		}
